@@ -102,6 +102,16 @@ class JsonDoc(Payload):
     def same(self, ex, other):
         return other is self
 
+    def eq_model(self, ex, other):
+        """Byte equality of two serialisations (`existing == what_i_was_going_to_write`): the same document, or two documents
+        of the same type whose values are equal (serialisation is a function of the value)."""
+        other = deref(other)
+        if other is self:
+            return True
+        if isinstance(other, JsonDoc) and other.vty == self.vty and bool(other.newline) == bool(self.newline):
+            return M.values_eq(ex, self.value, other.value)
+        return False
+
     def __repr__(self):
         return 'Json<%s>' % self.vty
 
